@@ -557,6 +557,38 @@ def _():
     return G.emit_strings('p_gumbel', rows, 'stochastic sampling dataflow (pinned shape)')
 
 
+@item('p_grad')
+def _():
+    """every .detach() / no_grad site on the gradient paths (pinned shape)"""
+    rows = []
+
+    def detach_sites(fname, qual, tag):
+        f = find_func(fname, qual)
+        for n in ast.walk(f):
+            if isinstance(n, (ast.Assign, ast.Return)) and ('detach' in ast.unparse(n)):
+                rows.append(f'{tag}:' + ast.unparse(n).replace('\n', ' '))
+            if isinstance(n, ast.With) and 'no_grad' in ast.unparse(n.items[0]):
+                rows.append(f'{tag}:with ' + ast.unparse(n.items[0]) + ': ' + ' ; '.join(ast.unparse(b).replace('\n', ' ') for b in n.body))
+    detach_sites(VQ, 'VectorQuantize.forward', 'vq')
+    detach_sites(VQ, 'rotate_to', 'rotate_to')
+    detach_sites(VQ, 'efficient_rotation_trick_transform', 'rotation')
+    detach_sites(VQ, 'EuclideanCodebook.forward', 'euclid')
+    detach_sites(VQ, 'CosineSimCodebook.forward', 'cosine')
+    detach_sites(VQ, 'gumbel_sample', 'gumbel')
+    detach_sites(SIMVQ, 'SimVQ.forward', 'simvq')
+    detach_sites(FSQF, 'round_ste', 'round_ste')
+    detach_sites(FSQF, 'floor_ste', 'floor_ste')
+    detach_sites(LFQF, 'LFQ.forward', 'lfq')
+    detach_sites(LQ, 'LatentQuantize.quantize', 'latent')
+    detach_sites(LQ, 'LatentQuantize.quantization_loss', 'latent')
+    detach_sites(LQ, 'LatentQuantize.commitment_loss', 'latent')
+    for fname, cls in ((RVQ, 'ResidualVQ'), (RFSQ, 'ResidualFSQ'), (RLFQ, 'ResidualLFQ'), (RSVQ, 'ResidualSimVQ')):
+        detach_sites(fname, f'{cls}.forward', cls)
+    rows.append('vq.rotate_call:' + ' ; '.join(ast.unparse(n) for n in ast.walk(find_func(VQ, 'VectorQuantize.forward')) if isinstance(n, ast.Call) and G.call_name(n) == 'rotate_to'))
+    rows.append('vq.sync_update:' + ' ; '.join(ast.unparse(n) for n in ast.walk(find_func(VQ, 'VectorQuantize.forward')) if isinstance(n, ast.Assign) and 'sync_update_v' in ast.unparse(n.value)))
+    return G.emit_strings('p_grad', rows, 'detach / no_grad sites (pinned shape)')
+
+
 # =============================================================================== inventories (G4)
 for fname, cls, tag in ((VQ, 'EuclideanCodebook', 'euclid'), (VQ, 'CosineSimCodebook', 'cosine'), (VQ, 'VectorQuantize', 'vq'),
                         (FSQF, 'FSQ', 'fsq'), (LFQF, 'LFQ', 'lfq'), (SIMVQ, 'SimVQ', 'simvq'), (RPQ, 'RandomProjectionQuantizer', 'rpq'),
